@@ -30,8 +30,12 @@ def run(ctx):
     ctx.extra["families"] = [f.name for f in fams]
     ctx.extra["shapes"] = tot["shapes"]
     ctx.extra["provider_calls"] = tot["records"]
+    SC.s0_compositions(ctx)
     SC.s3_ensure_level(ctx)
+    from ..engines import mapplumbing as M
+    M.m4b_verification_levels(ctx)
     SC.s4_forest_keys(ctx)
+    ctx.floor("S0", 4)
     ctx.floor("S1", 20)
     ctx.floor("S2", 3)
     ctx.floor("S3", 4)
